@@ -104,7 +104,8 @@ def r2_same_key(c, facts):
         # stored value derives from the production result, returned value too
         sv = MF.slice_back(fn, ct['args'][3]['l'], idx) if 'l' in ct['args'][3] else {'locals': set()}
         prod_local = pt['dest']['l']
-        ret_ok = any(kind == 'assign' and s['rv']['r'] == 'use' and s['rv']['op'].get('l') == prod_local for kind, bi, s in idx.get(0, []))
+        ret_ok = any(kind == 'assign' and s['rv']['r'] == 'use' and s['rv']['op'].get('l') == prod_local for kind, bi, s in idx.get(0, [])) \
+            or prod_local in MF.slice_back(fn, 0, idx, through_calls=False)['locals']      # through the result place of a spliced helper
         if prod_local in sv['locals'] and ret_ok:
             c.ok(R, {'stored': 'clone of the production result that is returned'})
         else:
